@@ -696,6 +696,10 @@ class EvolutionSuperOperator(SuperOperator, TimeDependent, Saveable):
                 
                 self.now += 1
 
+        if self.ham.has_rwa:
+            # evolution was calculated in RWA
+            self.is_in_rwa = True
+
 
     def at(self, time=None):
         """Retruns evolution superoperator tensor at a given time
@@ -958,7 +962,12 @@ class EvolutionSuperOperator(SuperOperator, TimeDependent, Saveable):
             with energy_units("int"):
                 HOmega = ham.get_RWA_skeleton()
             
+            # without saving, mode "jit" keeps the value at the current time
+            single = (self.data.ndim == 4)
+
             for i, t in enumerate(self.time.data):
+                if single and (i != self.now):
+                    continue
                 # evolution operator
                 Ut = numpy.diag(numpy.diag(numpy.exp(-sgn*1j*HOmega*t)))
                 Uc = numpy.conj(Ut)
@@ -968,8 +977,12 @@ class EvolutionSuperOperator(SuperOperator, TimeDependent, Saveable):
                 for aa in range(dim):
                     for bb in range(dim):
 
-                        self.data[i,aa,bb,:,:] = \
-                            Ut[aa]*Uc[bb]*self.data[i,aa,bb,:,:]
+                        if single:
+                            self.data[aa,bb,:,:] = \
+                                Ut[aa]*Uc[bb]*self.data[aa,bb,:,:]
+                        else:
+                            self.data[i,aa,bb,:,:] = \
+                                Ut[aa]*Uc[bb]*self.data[i,aa,bb,:,:]
 
                 
         if sgn == 1:
